@@ -2,7 +2,7 @@
 Used by C02, C05, C06, C11, C17, C18."""
 import re
 
-from .core import (Prov, bool_cond_edges, callee_is, const_value, constructions, discr_cond_edges, has_origin, origin_strs, selection_blocks,
+from .core import (transparent_args, Prov, bool_cond_edges, callee_is, const_value, constructions, discr_cond_edges, has_origin, origin_strs, selection_blocks,
                    result_switches, root_local, sites_star, first_switches)
 
 TOKEN_ITEM = "fastrace::collector::CollectTokenItem"
@@ -738,7 +738,27 @@ def rule_local_converters_agree(ctx, facts, rule):
         for a in t["args"]:
             amend_roots |= roots(a)
         mt = tsr.term(m[0])
-        ok = ok and all(root_local(tsr, a)[0] in amend_roots for a in mt["args"][:2] if a["k"] in ("copy", "move"))
+
+        def derived_from(op, depth=6):
+            # the locals an argument is a view of: `&mut records[..]`, `records.iter_mut()`, `&mut *danglings`
+            if op["k"] not in ("copy", "move") or depth == 0:
+                return set()
+            rl = root_local(tsr, op)[0]
+            out = {rl}
+            sd = tsr.single_def(rl)
+            if sd and sd[1] == "term" and sd[2]["k"] == "call":
+                idx = transparent_args(sd[2]["callee"]) or transparent_args(sd[2].get("decl", "")) or []
+                for i in idx:
+                    if i < len(sd[2]["args"]):
+                        out |= derived_from(sd[2]["args"][i], depth - 1)
+            elif sd and sd[1] != "term" and sd[2]["k"] == "assign":
+                rv = sd[2]["rv"]
+                if rv["k"] == "use":
+                    out |= derived_from(rv["op"], depth - 1)
+                elif rv["k"] == "ref":
+                    out |= derived_from({"k": "copy", "l": rv["place"]["l"], "p": rv["place"]["p"]}, depth - 1)
+            return out
+        ok = ok and all(derived_from(a) & amend_roots for a in mt["args"][:2] if a["k"] in ("copy", "move"))
     ctx.check(ok, rule, tsr.path, tsr.span,
               "to_span_records converts with the collector's amend_local_span (trace <- context.trace_id, parent <- context.span_id) "
               "and then mounts attachments with the collector's mount_danglings", "", "call shape differs", extra="to_span_records")
@@ -1398,7 +1418,8 @@ def rule_mount_scope(ctx, facts, rule):
         detail = "the whole batch is handed to mount_danglings"
         for o in batch:
             for v in o.via:
-                if v[0] == "call" and re.search(r"IndexMut<I>>::index_mut$|<impl \[T\]>::(get_mut|split_at_mut)$|Vec::<T, A>::(split_at_mut|get_mut)$", v[1]):
+                if v[0] == "call" and re.search(r"IndexMut<I>>::index_mut$|<impl \[T\]>::(get_mut|split_at_mut)$|Vec::<T, A>::(split_at_mut|get_mut)$|"
+                                                r"iterator::Iterator::skip$", v[1]):
                     it = fn.term(v[2])
                     rng = prov.of_operand(fn, it["args"][1]) if len(it["args"]) > 1 else []
                     lens = [w[2] for r in rng for w in r.via if w[0] == "call" and re.search(r"Vec::<T, A>::len$", w[1])]
